@@ -5,7 +5,7 @@ reference values for linear fields. Nothing in this file calls a discretization.
 
 Grid spec (JSON-able dict)::
 
-    {"kind": "C" | "T" | "Tet" | "Tensor", "n": [nx, ny(, nz)],      # C/T/Tet
+    {"kind": "C" | "T" | "Tet" | "Tensor" | "Prism", "n": [nx, ny(, nz)],   # C/T/Tet; Prism: + "z": [z0, z1, ...]
      "coords": [[...], [...]],                                         # Tensor
      "pert": [[node, [ix, iy, iz]], ...],     # node offsets in units of 0.1 (h = 1)
      "affine": "id" | "shear" | "rotscale",  # exact dyadic affine image
@@ -44,6 +44,8 @@ AFFINE = {
 def grid_name(spec) -> str:
     if spec["kind"] == "Tensor":
         s = "Tensor(" + ";".join(",".join(f"{v:g}" for v in c) for c in spec["coords"]) + ")"
+    elif spec["kind"] == "Prism":
+        s = f"Prism({','.join(str(v) for v in spec['n'])};z=" + ",".join(f"{v:g}" for v in spec["z"]) + ")"
     else:
         s = f"{spec['kind']}({','.join(str(v) for v in spec['n'])})"
     if spec.get("pert"):
@@ -75,6 +77,14 @@ def build_grid(spec):
     elif kind == "Tet":
         g = pp.StructuredTetrahedralGrid(np.array(spec["n"]))
         ext = [(0.0, float(v)) for v in spec["n"]]
+    elif kind == "Prism":
+        # triangular prisms: structured triangle grid extruded along z (quadrilateral
+        # lateral faces, triangular top/bottom faces)
+        gb = pp.StructuredTriangleGrid(np.array(spec["n"]))
+        gb.compute_geometry()
+        zs = np.array(spec["z"], dtype=float)
+        g, _, _ = pp.grid_extrusion.extrude_grid(gb, zs)
+        ext = [(0.0, float(v)) for v in spec["n"]] + [(float(zs[0]), float(zs[-1]))]
     elif kind == "Tensor":
         cs = [np.array(c, dtype=float) for c in spec["coords"]]
         g = pp.TensorGrid(*cs)
@@ -95,7 +105,7 @@ def build_grid(spec):
 
     pert = spec.get("pert") or []
     if pert:
-        if dim == 3 and kind != "Tet":
+        if dim == 3 and kind != "Tet":  # (prisms have quadrilateral faces as well)
             raise ValueError("node perturbation of hexahedra gives non-planar faces")
         for node, off in pert:
             o = np.zeros(3)
@@ -285,6 +295,9 @@ def num_boundary_faces(spec) -> int:
             tot += 2 * int(np.prod([n[a] for a in range(len(n)) if a != ax]))
         return tot
     n = spec["n"]
+    if kind == "Prism":
+        nz = len(spec["z"]) - 1
+        return 2 * (n[0] + n[1]) * nz + 2 * (2 * n[0] * n[1])
     if kind == "T":
         return 2 * (n[0] + n[1])
     if kind == "Tet":
